@@ -62,6 +62,8 @@ func main() {
 		}
 	case "replay":
 		replayMain(os.Args[2:])
+	case "replaybeh":
+		replayBehMain(os.Args[2:])
 	default:
 		fmt.Fprintln(os.Stderr, "unknown command")
 		os.Exit(2)
